@@ -45,6 +45,82 @@ CHECKS = {
         "direction); behaviours the statement leaves open are counted as exempt_* (strict mode: --opt strict=1). The "
         "socket shell lib/src/udp.rs is not driven by this part.",
     ),
+    "C05": (
+        "exploration",
+        "round-trip equality monitor over the real encode/replay paths of ConfigState",
+        "DESIGN.md section 3 C05",
+        "Reachable ConfigStates (random histories over all 28 mutating verbs, field-coverage states with every optional "
+        "field absent / proto-default / non-default, IPv4+IPv6, several certificates per address, records > 200 kB) are "
+        "pushed through produce_initial_state, the state-file writer + load_state read loop + parse_several_requests, the "
+        "protobuf bootstrap blob and the serde_json UpgradeData payload; replay must not fail and must rebuild the same "
+        "state; shuffled rebuilds must replay identically. Held on the states explored.",
+        "Trusted: the monitor's own ConfigState comparison (11 maps, request_counts ignored); the load_state loop is "
+        "mirrored from bin/src/command/requests.rs (private module) rather than called; empty buckets left by removals "
+        "are counted as exempt (strict: --opt strict_buckets=1).",
+    ),
+    "C06": (
+        "exploration",
+        "apply-diff equality monitor on the real ConfigState::diff / dispatch",
+        "DESIGN.md section 3 C06",
+        "Ordered pairs (A, mutate(A)) and independent pairs of reachable states, both directions: every command of "
+        "A.diff(B) must be accepted by a clone of A and leave it equal to B after dropping empty buckets; diff(A,A) and "
+        "diff(result,B) must be empty. Mutations target the keys diff joins on. Held on the pairs explored.",
+        "Trusted: the monitor's ConfigState comparison; worker-level application of diffs is covered by C08, not here.",
+    ),
+    "C07": (
+        "exploration",
+        "before/after snapshot + per-verb footprint monitor on the real ConfigState::dispatch",
+        "DESIGN.md section 3 C07",
+        "Every command of random histories (half from a 52-entry catalogue of commands with exactly one invalid field) is "
+        "judged against a clone taken before it: Err => all 11 maps strictly equal; Ok => every difference inside the "
+        "verb's footprint (for patches only the fields present in the patch). Held on the histories explored.",
+        "Trusted: the footprint table (written from the verb semantics); hub- and worker-level no-trace checks are part "
+        "of C08's lab (signatures c07/...).",
+    ),
+    "C10": (
+        "fault_enumeration",
+        "exhaustive codec sweep with fd-identity oracle on the real ScmSocket",
+        "DESIGN.md section 3 C10 (monitor A)",
+        "send_listeners/receive_listeners over a socketpair with real listening sockets: every listener count 0..=201 "
+        "(+253, 254) x 5 address-length classes x 6 protocol mixes; received (address, fd) tables must equal the sent "
+        "ones, each fd must be the same socket (fstat) bound to the listed address, no fd may leak, counts above the "
+        "documented limit must fail cleanly. This sub-space is enumerated completely. Hand-over under traffic "
+        "(monitors B/C) is not part of this check yet.",
+        "Trusted: /proc/self/fd census; full 8-group IPv6 addresses cannot be bound in the sandbox (v4-mapped form used).",
+    ),
+    "C11": (
+        "exploration",
+        "sequence-equality + capacity-ledger monitor on a real Channel over a socketpair",
+        "DESIGN.md section 3 C11",
+        "A real Channel on one end of a socketpair, raw bytes with arbitrary splits and real EAGAIN windows on the other: "
+        "delivered == sent (exactly once, in order), buffer capacity <= max after every call, malformed prefixes / "
+        "undecodable payloads => Err then resynchronisation, bounded work per wake-up; every single/pair split of short "
+        "sequences enumerated; blocking, non-blocking, paired and threaded-writer families. Held on what was explored.",
+        "Trusted: kernel socketpair semantics; Miri shard for the Buffer types is run by the thorough tier only.",
+    ),
+    "C17": (
+        "exploration",
+        "reference-resolver-model monitor on the real CertificateResolver (incl. rustls resolve path)",
+        "DESIGN.md section 3 C17 (part a)",
+        "Histories of add/remove/replace (valid, idempotent, 10 injected faults, name and expiry overrides) over a pool of 24 "
+        "openssl-generated certificates; after every operation 66 probe names go through domain_lookup, names_for_sni, "
+        "get_certificate and ResolvesServerCert::resolve (hand-built ClientHello) and are compared with a model written "
+        "from the statement (loaded, covers, exact over wildcard, longest-lived, default only when nothing covers, failed "
+        "operations change nothing). Live-handshake part (b) not included yet.",
+        "Trusted: openssl-reported names/expiry in fixtures/C17/index.json; probes the statement leaves open (expiry "
+        "ties, non-canonical bytes, trailing dot via rustls) are exempt and counted.",
+    ),
+    "C20": (
+        "exploration",
+        "model-first differential monitor on the real config loader + ConfigState",
+        "DESIGN.md section 3 C20",
+        "An abstract model is generated first and rendered to TOML (inline and table syntaxes); Config::load_from_path + "
+        "generate_config_messages + dispatch on a fresh ConfigState (as load_static_config does) must accept every "
+        "message and yield exactly the model (documented defaults from doc/configure.md), reload must change nothing, 42 "
+        "constraint-violating neighbour classes must be refused (or, when undocumented, refused or complete), message "
+        "counts sweep 240..272 (thorough: 65530..65541). Held on the files explored.",
+        "Trusted: the defaults table transcribed from the documentation; fields without a documented default are exempt.",
+    ),
 }
 
 ALL = ["C%02d" % i for i in range(1, 21)]
